@@ -106,7 +106,9 @@ def run(prog, rep, tier='quick', config='default'):
     # ------------------------------------------------------------------ R15d: the window scans handle splits
     scan = None
     for cand in prog.product_fns():
-        if cand.name.startswith('portfolio::bookkeeping::superficial_loss::') and len([x for x in cand.calls if x.callee.endswith('pre_to_post_factor')]) >= 2:
+        if cand.name.startswith('portfolio::bookkeeping::superficial_loss::') and cand.kind in ('Fn', 'AssocFn') and \
+                len([x for x in cand.calls if x.short == 'insert' and
+                     re.search(r'HashMap<&portfolio::model::affiliate::Affiliate, util::decimal::ConstrainedDecimal', cand.ty.get(x.arg_local(0), ''))]) >= 2:
             scan = cand
     scan = scan or prog.fn('portfolio::bookkeeping::superficial_loss::get_superficial_loss_info')
     if rep.anchor('get_superficial_loss_info', scan):
@@ -128,7 +130,8 @@ def run(prog, rep, tier='quick', config='default'):
             for c in scan.calls:
                 if c.bb in body and c.short == 'insert' and re.search(r'HashMap<&portfolio::model::affiliate::Affiliate, util::decimal::ConstrainedDecimal', scan.ty.get(c.arg_local(0), '')):
                     o = mir.provenance(scan, c.args[-1], follow_all_call_args=True)
-                    if o.has_call(r'pre_to_post_factor$'):
+                    # the new factor derives from the split's ratio: through a SplitRatio method or its two terms
+                    if o.has_call(r'SplitRatio::\w+$') or any(of.endswith('SplitRatio') for (of, fl) in o.fields):
                         feeds = True
                         ins_blocks.add(c.bb)
             if has_split and feeds:
@@ -143,7 +146,7 @@ def run(prog, rep, tier='quick', config='default'):
         if n_ok >= 2 and not conditional:
             rep.ok('R15d', 'split-factor-recorded-unconditionally', fn=scan.name, detail='in both scans every Split row reaches the factor update')
         if n_ok >= 2:
-            rep.ok('R15d', 'both-window-scans-apply-splits', fn=scan.name, detail='%d scan loops have a Split case that updates the per-affiliate adjustment factor from pre_to_post_factor()' % n_ok)
+            rep.ok('R15d', 'both-window-scans-apply-splits', fn=scan.name, detail='%d scan loops have a Split case that updates the per-affiliate adjustment factor from the split ratio' % n_ok)
         else:
             rep.violation('R15d', 'both-window-scans-apply-splits', fn=scan.name, where='%s:%d' % (scan.file, scan.line),
                           detail='only %d of the two window scans (after / before the sale) adjust share counts for a split inside the window' % n_ok)
